@@ -205,6 +205,59 @@ impl Check for C11 {
                 }
             });
         }
+        // (i-4) shapes that leave the surface under rotations and shears: a part is visible, most of the
+        // shape (its centre, some of its bounding-box corners) is not, with and without a clip rectangle
+        {
+            let ts: Vec<Xf> = vec![[0.8, 0.6, -0.6, 0.8, 0., 0.], [0.8, -0.6, 0.6, 0.8, 0., 20.], [1., 0., -1., 1., 20., 0.], [1., -0.75, 0., 1., 0., 30.], [-0.6, 0.8, 0.8, 0.6, 30., -10.], [0.5, 0.5, -2.0, 2.0, 40., 0.]];
+            let xs = [-40.0f32, -10., 5., 30., 55.];
+            run.bound("shapes leaving the surface under rotations and shears", format!("{} transforms x rectangles and triangles (25 x 40 user units) at {}^2 positions x (no clip, clip rectangle (30,8)-(60,30)) on 64x64: same pixels as the pre-transformed path", ts.len(), xs.len()));
+            run.par(ts.len() * xs.len(), |s, l| {
+                let xf = ts[s / xs.len()];
+                let x0 = xs[s % xs.len()];
+                for &y0 in &xs {
+                    for shape in 0..2 {
+                        for clip in [false, true] {
+                            let p = if shape == 0 { PathSpec::rect(x0, y0, 25., 40.) } else { PathSpec::poly(&[(x0, y0), (x0 + 25., y0 + 12.), (x0 + 4., y0 + 40.)]) };
+                            let o = Opts { mode: BlendMode::SrcOver, alpha: 1.0, aa: true };
+                            let mut a_ops = Vec::new();
+                            let mut b_ops = Vec::new();
+                            if clip {
+                                a_ops.push(Op::PushClipRect(30, 8, 60, 30));
+                                b_ops.push(Op::PushClipRect(30, 8, 60, 30));
+                            }
+                            a_ops.extend([Op::SetTransform(xf), Op::Fill(p.clone(), white.clone(), o)]);
+                            b_ops.push(Op::Fill(spec_from_path(&p.build().transform(&xf_to(&xf))), white.clone(), o));
+                            let a = Scene { w: 64, h: 64, dst: Dst::Zero, ops: a_ops };
+                            let b = Scene { w: 64, h: 64, dst: Dst::Zero, ops: b_ops };
+                            one(run, 800 + s, l, "fill-under-T-vs-pretransformed-path", a, b, false);
+                        }
+                    }
+                }
+            });
+        }
+        // (ii') a dashed stroke under T is the stroke of the dashes under T: the same pixels as stroking
+        // the path the dasher makes of it (hook), undashed, under the same T - however fine the
+        // pattern is in device pixels
+        {
+            let ts: Vec<Xf> = vec![[1.0 / 64.0, 0., 0., 1.0 / 64.0, 0., 0.], [0.125, 0., 0., 0.125, 1., 1.], [1., 0., 0., 1., 0.5, 0.25], [4., 0., 0., 4., -8., -8.], [0.02, 0., 0., 0.02, 2., 3.]];
+            let dashes: Vec<Vec<f32>> = vec![vec![3., 2.], vec![0.25, 0.375], vec![40., 24.], vec![7., 1., 2.]];
+            run.bound("dashed strokes under scales", format!("{} transforms x {} dash arrays (periods from 0.01 to 200 device pixels) x 2 polylines sized to the surface: stroke with the dash array vs stroke of the dasher's output without it", ts.len(), dashes.len()));
+            run.par(ts.len() * dashes.len(), |s, l| {
+                let xf = ts[s / dashes.len()];
+                let dash = &dashes[s % dashes.len()];
+                let k = 1.0 / xf[0];
+                for pts in [[(1.0f32, 1.5f32), (7.0, 2.0), (2.0, 6.5)], [(0.5, 4.0), (7.5, 4.0), (7.5, 7.0)]] {
+                    let ops: Vec<POp> = pts.iter().enumerate().map(|(i, p)| { let (x, y) = ((p.0 - xf[4]) * k, (p.1 - xf[5]) * k); if i == 0 { POp::M(x, y) } else { POp::L(x, y) } }).collect();
+                    let path = PathSpec::new(ops);
+                    let st = StyleSpec { width: 1.5 * k, cap: 0, join: 1, miter: 4., dash: dash.clone(), offset: 0. };
+                    let dashed = spec_from_path(&raqote::verif_dash_path(&path.build(), dash, 0.));
+                    let st2 = StyleSpec { dash: vec![], ..st.clone() };
+                    let a = Scene { w: S, h: S, dst: Dst::Zero, ops: vec![Op::SetTransform(xf), Op::Stroke(path, st, white.clone(), Opts::default())] };
+                    let b = Scene { w: S, h: S, dst: Dst::Zero, ops: vec![Op::SetTransform(xf), Op::Stroke(dashed, st2, white.clone(), Opts::default())] };
+                    one(run, 900 + s, l, "dashed-stroke-under-T-vs-stroke-of-the-dashes", a, b, false);
+                }
+            });
+        }
         // (i') invertible transforms with a tiny determinant (only a non-invertible T draws nothing):
         // user coordinates k times larger under scale 1/k
         let tiny: Vec<(f32, f32)> = vec![(4096., 4096.), (1., 1e7), (1e7, 1.), (1e4, 1e4), (1e-3, 1e9), (65536., 65536.)];
